@@ -452,7 +452,39 @@ def s_lock_scenario(draw):
     return {"kind": kind, "forest": forest, "labels": labels, "ops": ops}
 
 
+@st.composite
+def s_long_chain(draw):
+    """chains a few hundred headers long (indices and lengths beyond one byte / beyond 256): delivered in a few large
+    batches, a lock near index 256, then a heavier fork close to the tip, then everything again"""
+    L = draw(st.sampled_from([250, 254, 255, 256, 257, 258, 300]))
+    forest = [[i, 1] for i in range(L)]
+    at = L - draw(st.integers(1, 4))
+    parent = at
+    fork = []
+    for _j in range(draw(st.integers(2, 6))):
+        forest.append([parent, draw(st.integers(1, 2))])
+        parent = len(forest)
+        fork.append(parent)
+    n = len(forest)
+    labels = list(range(1, n + 1))
+    cut = draw(st.integers(100, L - 5))
+    main = list(range(1, L + 1))
+    if draw(st.booleans()):
+        ops = [["d", main[:cut]], ["d", main[cut:]]]
+    else:
+        ops = [["d", main[cut:]], ["d", main[:cut]]]          # the tail arrives first, as orphans
+    ops.append(["l", draw(st.sampled_from([253, 254, 255, 256, 257, 258, L - 6]))])
+    ops.append(["d", fork] if draw(st.booleans()) else ["d", fork[::-1]])
+    if draw(st.booleans()):
+        ops.append(["dunlocked"])
+    return {"kind": draw(st.sampled_from(["int", "bytes"])), "forest": forest, "labels": labels, "ops": ops}
+
+
 SUBCHECKS = [
+    SubCheck("long_chains", o_history, strategy=s_long_chain, budget=(48, 2000), nontrivial=nt_history,
+             rule="a main chain of 250-300 unit-weight headers delivered in two large batches (in order, or the tail first as orphans), "
+                  "lock_to_index at 253..258, then a 2-6 header fork of weight 1-2 per header starting 1-4 headers below the tip; the "
+                  "same invariants after every operation (indices, lengths and batch sizes beyond 256)"),
     SubCheck("lock_then_extend", o_history, strategy=s_lock_scenario, budget=(3000, 100000), nontrivial=nt_history,
              rule="a main chain of 3-8 headers with 1-3 forks (weights 1-4): everything but the last 1-3 main-chain headers (and "
                   "up to 2 fork headers) is delivered, a prefix is locked, then the held-back headers arrive one per batch; same "
